@@ -591,6 +591,70 @@ def _d10(chk, fb):
     chk.floor("D10", "permuting algorithm calls in the HMM units", n, 2)
 
 
+def _member_writes(f):
+    """members of this written by f: name -> list of (node, how) with how in '=', '+=', 'clear', 'resize', 'push_back', ..."""
+    out = {}
+    for x in f.all_nodes():
+        if x["k"] in ("BinaryOperator", "CompoundAssignOperator") and x.get("op", "").endswith("=") and x["op"] not in ("==", "!=", "<=", ">="):
+            l = strip(kids(x)[0])
+            while l is not None and is_call(l) and l["callee"]["name"] in ("operator[]", "at") and "obj" in l:
+                l = strip(f.obj(l))
+            if l is not None and l["k"] == "MemberExpr" and l["member"].get("this"):
+                out.setdefault(l["member"]["name"], []).append((x, x["op"]))
+        elif is_call(x) and "obj" in x and not x["callee"].get("const") and x["callee"]["name"] in ("clear", "resize", "push_back", "emplace_back", "assign", "erase", "pop_back"):
+            o = strip(f.obj(x))
+            while o is not None and is_call(o) and o["callee"]["name"] in ("operator[]", "at") and "obj" in o:
+                o = strip(f.obj(o))
+            if o is not None and o["k"] == "MemberExpr" and o["member"].get("this"):
+                out.setdefault(o["member"]["name"], []).append((x, x["callee"]["name"]))
+    return out
+
+
+def _d11(chk, fb):
+    """the two derivative passes own their results: getFirstOrderDerivative / getSecondOrderDerivative memoise on the variable name
+    and call computeDForward_ / computeD2Forward_ only when the name changes, so what one pass has produced must survive the
+    other.  (a) no member is written by both passes of one class; (b) a member accumulated with '+=' inside a loop of a pass is
+    assigned (reset) in that pass on every path before the loop - otherwise the next query adds to the previous answer.
+    Both are instances of 'answers depend only on the current parameter values, never on the order of earlier queries'"""
+    n = 0
+    for cls in sorted(set(fb.subclasses("bpp::AbstractHmmLikelihood")) | {"bpp::AbstractHmmLikelihood"}):
+        d1 = [f for f in fb.q(cls + "::computeDForward_") if f.body is not None]
+        d2 = [f for f in fb.q(cls + "::computeD2Forward_") if f.body is not None]
+        passes = [(f, "first") for f in d1] + [(f, "second") for f in d2] + [(f, "forward") for f in fb.q(cls + "::computeForward_") if f.body is not None]
+        if d1 and d2:
+            w1, w2 = _member_writes(d1[0]), _member_writes(d2[0])
+            for m in sorted(set(w1) | set(w2)):
+                n += 1
+                con = "pass-owns:" + m
+                if m in w1 and m in w2:
+                    node, how = w2[m][0]
+                    chk.refuted("D11", d2[0].key, con, d2[0].loc(node),
+                                "computeD2Forward_ writes '%s' (%s), a result of computeDForward_: the first-derivative answers are memoised on the variable name and are not recomputed after a second-derivative query, so they are served from the overwritten member" % (m, render(node)[:50]),
+                                witness={"history": "getFirstOrderDerivative(v); getSecondOrderDerivative(v); getFirstOrderDerivative(v) - the third answer differs from the first"})
+                else:
+                    own = d1[0] if m in w1 else d2[0]
+                    chk.proved("D11", own.key, con, own.loc(), "written by the %s-derivative pass only" % ("first" if m in w1 else "second"))
+        for f, kind in passes:
+            cfg = f.cfg
+            w = _member_writes(f)
+            for m, lst in sorted(w.items()):
+                acc = [x for x, how in lst if how == "+=" and strip(kids(x)[0])["k"] == "MemberExpr" and f.enclosing(x, ("ForStmt", "WhileStmt", "CXXForRangeStmt")) is not None]
+                if not acc:
+                    continue
+                n += 1
+                con = "accumulator-reset:" + m
+                resets = [x for x, how in lst if how == "=" and strip(kids(x)[0])["k"] == "MemberExpr"]
+                ab = cfg.stmt_block(acc[0])
+                ok = any(cfg.stmt_block(r) is not None and ab is not None and cfg.dominates(cfg.stmt_block(r), ab) and cfg.stmt_block(r) != ab for r in resets)
+                if ok:
+                    chk.proved("D11", f.key, con, f.loc(acc[0]), "'%s' is assigned before the loop that accumulates into it" % m)
+                else:
+                    chk.refuted("D11", f.key, con, f.loc(acc[0]),
+                                "%s accumulates into the member '%s' ('%s') without assigning it first: every call of this pass adds to what the previous call left, so the answer depends on how many queries were made before" % (f.name, m, render(acc[0])[:50]),
+                                witness={"history": "two second-derivative queries for different variables: the second answer contains the first"})
+    chk.floor("D11", "members written by the derivative passes", n, 10)
+
+
 def run(chk, fb, tier):
     chk.rule("D1", "every fireParameterChanged below AbstractHmmLikelihood resets the derivative memo keys and clears the backward lazy flags on every path that recomputes the forward pass")
     chk.rule("D2", "a method setting upToDate_ = true has written every member that some getter returns under 'if (!upToDate_)'; fireParameterChanged clears the flag unconditionally")
@@ -610,6 +674,8 @@ def run(chk, fb, tier):
     _d9(chk, fb)
     chk.rule("D10", "permuting std algorithms in the HMM likelihood classes run on value copies, never on a member table (directly or through a reference local) that other members read by position")
     _d10(chk, fb)
+    chk.rule("D11", "the first- and second-derivative passes of a likelihood class write disjoint members, and a member accumulated with += in a loop of a pass is assigned in that pass before the loop")
+    _d11(chk, fb)
     from . import argswap as _argswap
     chk.rule("DA", "argument/parameter name agreement at forwarding calls in the anchored units (same-typed parameters must not be swapped)")
     _af = ('src/Bpp/Numeric/Hmm/HmmLikelihood.h', 'src/Bpp/Numeric/Hmm/HmmLikelihood.cpp', 'src/Bpp/Numeric/Hmm/RescaledHmmLikelihood.cpp', 'src/Bpp/Numeric/Hmm/LowMemoryRescaledHmmLikelihood.cpp', 'src/Bpp/Numeric/Hmm/LogsumHmmLikelihood.cpp', 'src/Bpp/Numeric/Hmm/AbstractHmmTransitionMatrix.cpp', 'src/Bpp/Numeric/Hmm/FullHmmTransitionMatrix.cpp', 'src/Bpp/Numeric/Hmm/AutoCorrelationTransitionMatrix.cpp', 'src/Bpp/Numeric/NumTools.h')
